@@ -177,6 +177,29 @@ func checkC13(c *Check) {
 			whyDyn = "computed keys come from the authorization endpoint's own query and never override a table key"
 		}
 	}
+	// the table may only be modified by indexed assignment of whole value lists (checked above); url.Values
+	// methods that add or replace single values (Set keeps one value, Del drops) are not an accepted form
+	for _, ci := range allCalls(rd) {
+		cc, ok := ci.(*ssa.Call)
+		if !ok {
+			continue
+		}
+		id := funcID(calleeOf(cc).Obj)
+		if (id == "net/url.Values.Set" || id == "net/url.Values.Add" || id == "net/url.Values.Del") && resolveCell(stripConv(cc.Common().Args[0])) == m.RedirQueryMap {
+			okDyn = false
+			whyDyn = "the parameter table is modified through " + shortID(id) + " (single values): a repeated parameter of the authorization endpoint's own query is not retained with all its values"
+		}
+	}
+	// the endpoint's own query must be merged at all
+	merged := len(m.RedirQueryDyn) > 0
+	if !merged {
+		for _, ci := range callsTo(rd, "net/url.URL.Query") {
+			_ = ci
+			merged = merged || false
+		}
+	}
+	c.Obl(merged, "C13.R2", "param/endpoint-query-merged", P.Pos(rd.Pos()), "the authorization endpoint's own query is merged into the table",
+		"the authorization endpoint's own query parameters are not merged into the redirect's parameters (any query of its own must be retained)")
 	c.Obl(okDyn, "C13.R2", "param/endpoint-query-retained", P.Pos(rd.Pos()), whyDyn, whyDyn)
 
 	// ---- R3
